@@ -110,6 +110,7 @@ func c07spec(op c07op, n uint32) aggfix.Spec {
 	case aggfix.Src:
 		sp.SrcNS, sp.SrcNode = "ns-s", "node-s"
 	case aggfix.Dst:
+		sp.Layout = 1 // the destination node's exporter lists its fields in a different order
 		sp.DstNS, sp.DstNode, sp.SvcPort, sp.IngressPrio = "ns-d", "node-d", 8080, 7
 		if !aggfix.Keys[op.key].V6 {
 			sp.ClusterIP = "10.96.0.10"
